@@ -253,6 +253,9 @@ class SymEnv(object):
     def note(self, s):
         self.c.notes.append(s)
 
+    def abstract_wide_arith(self, bits):
+        self.core.ABSTRACT_WIDE[0] = bits
+
     def concrete_rng(self, seed):
         """default RNG = deterministic concrete bytes (where the property is not about randomness)"""
         from vlib.pysym import natives
@@ -370,6 +373,9 @@ class ConcEnv(object):
         pass
 
     def concrete_rng(self, seed):
+        pass
+
+    def abstract_wide_arith(self, bits):
         pass
 
     def opaque_decryption(self, on):
